@@ -35,6 +35,8 @@ BINOPS = {
 KEYWORDS = {"let", "in", "with", "assert", "if", "then", "else", "rec", "inherit", "or"}
 
 GLUE = object()  # no whitespace allowed between neighbours (string content)
+NOBR_ON = object()  # suppress line-break hints (flat rendering) until NOBR_OFF
+NOBR_OFF = object()
 
 
 class BR:
@@ -95,9 +97,11 @@ def _emit_attrseg(seg, out):
         out.append(seg[1])
     elif seg[0] == "qname":
         _emit_string(seg[1], out, '"')
-    else:  # dyn
+    else:  # dyn: rendered flat (nima keeps attrpath text raw, see finding F06)
         out.append("${")
+        out.append(NOBR_ON)
         _emit(seg[1], L_WEAK, out)
+        out.append(NOBR_OFF)
         out.append("}")
 
 
@@ -282,13 +286,20 @@ def render(ast, broken: bool = False) -> str:
     indent = 0
     pending = " "
     first = True
+    nobr = 0
     for it in items:
         if it is GLUE:
             pending = ""
             continue
+        if it is NOBR_ON:
+            nobr += 1
+            continue
+        if it is NOBR_OFF:
+            nobr -= 1
+            continue
         if isinstance(it, BR):
             indent = max(0, indent + it.delta)
-            if broken:
+            if broken and not nobr:
                 pending = "\n" + "  " * indent
             continue
         if not first:
@@ -407,9 +418,9 @@ class Gen:
     def attrseg(self, dynamic: bool = True):
         r = self.r
         x = r.random()
-        if x < 0.7:
+        if x < 0.74:
             return ("name", self.plain_name())
-        if x < 0.88 or not dynamic:
+        if x < 0.94 or not dynamic:
             return ("qname", self.simple_string_parts())
         return ("dyn", self.expr())
 
